@@ -632,12 +632,6 @@ where
         let prio_indices = prioritized_indices(&self.bin_ops.ops, &self.nodes);
 
         let mut num_inds = prio_indices.clone();
-        let mut priorities = self
-            .bin_ops
-            .ops
-            .iter()
-            .map(|o| o.op.prio)
-            .collect::<SmallVec<[i64; N_NODES_ON_STACK]>>();
         let mut used_prio_indices = ExprIdxVec::new();
 
         let mut already_declined: SmallVec<[bool; N_NODES_ON_STACK]> =
@@ -654,7 +648,6 @@ where
                     self.nodes[num_idx] = DeepNode::Num(bin_op_result);
                     self.nodes.remove(num_idx + 1);
                     already_declined.remove(num_idx + 1);
-                    priorities.remove(num_idx);
                     // reduce indices after removed position
                     for num_idx_after in num_inds.iter_mut() {
                         if *num_idx_after > num_idx {
@@ -662,15 +655,9 @@ where
                         }
                     }
                     used_prio_indices.push(bin_op_idx);
-                } else if num_idx > 0 && num_idx < priorities.len() - 1 {
-                    if already_declined[num_idx + 1]
-                        && priorities[num_idx + 1] > priorities[num_idx]
-                    {
-                        already_declined[num_idx] = true;
-                    }
-                    if already_declined[num_idx] && priorities[num_idx] > priorities[num_idx + 1] {
-                        already_declined[num_idx + 1] = true;
-                    }
+                } else {
+                    already_declined[num_idx] = true;
+                    already_declined[num_idx + 1] = true;
                 }
             } else {
                 already_declined[num_idx] = true;
